@@ -50,6 +50,9 @@ type World struct {
 	envField      string
 	nilFuncVars   map[*ssa.Global]bool
 	initTime      map[*ssa.Function]int
+	onceMemo      []*onceInit
+	onceDone      bool
+	onceBuilding  bool
 	baseMem       map[string]AV
 }
 
